@@ -7,7 +7,7 @@ Require Import Tensor Num Result Tree C09_Masked C09_Ops C09_TfNorm C09_Facts Ge
 Import ListNotations.
 
 (* ---- external numerics of the executed instance -------------------------------------------------------------- *)
-Definition fhalfpi : float := 1.5707963267948966%float.
+Definition fhalfpi : float := 0x1.921fb54442d18p+0%float.    (* pi/2 = 1.5707963267948966 *)
 (* atan by two half-angle reductions and the odd series up to y^15 (|y| <= tan(pi/16): error < 1e-13) *)
 Definition atan_small (y : float) : float :=
   let y2 := (y * y)%float in
